@@ -327,6 +327,8 @@ impl Node {
                     if let Some(handle) = registry.get(&pid).await {
                         handle.send(Message::Regular { from: None, body }).await?;
                     } else {
+                        #[cfg(edp_verif)]
+                        edp_client::verif::yield_point("route.before_rpc_lookup").await;
                         let pid_str = format!("{}.{}.{}", pid.id, pid.serial, pid.creation);
                         if let Some((_key, sender)) = pending_rpcs.remove(&pid_str) {
                             let _ = sender.send(body);
@@ -585,6 +587,11 @@ impl Node {
         &self.cookie
     }
 
+    #[cfg(edp_verif)]
+    pub fn verif_pending_rpcs_len(&self) -> usize {
+        self.pending_rpcs.len()
+    }
+
     pub async fn rpc_call(
         &self,
         remote_node: &str,
@@ -650,7 +657,11 @@ impl Node {
             "{}.{}.{}",
             reply_to_pid.id, reply_to_pid.serial, reply_to_pid.creation
         );
+        #[cfg(edp_verif)]
+        edp_client::verif::yield_point("rpc.before_insert").await;
         self.pending_rpcs.insert(pid_str.clone(), tx);
+        #[cfg(edp_verif)]
+        edp_client::verif::yield_point("rpc.after_insert").await;
 
         tracing::debug!("RPC call_request: {:?}", call_request);
         tracing::debug!("RPC reply_to_pid: {:?}", reply_to_pid);
@@ -669,8 +680,12 @@ impl Node {
             return Err(Error::NodeNotConnected(remote_node.to_string()));
         }
 
+        #[cfg(edp_verif)]
+        edp_client::verif::yield_point("rpc.after_send").await;
         let response = tokio::time::timeout(timeout, rx).await;
 
+        #[cfg(edp_verif)]
+        edp_client::verif::yield_point("rpc.after_wait").await;
         if response.is_err() {
             self.pending_rpcs.remove(&pid_str);
         }
